@@ -31,7 +31,7 @@ LEVEL_NOTE = ('Grids are pairwise non-degenerate by construction and the referen
 RULE = ("cases: package configurations; executions: one whole pipeline run (data file with all plants of the configuration) and one evaluation per planted source; non-trivial = "
         "distinct (configuration, planted model, A_V0, distance) with a non-identity parameter table or a multi-aperture package")
 ASSUMPTIONS = ["pairwise non-degenerate model grids (margin measured by the reference)", "photometric errors equal relative size on all bands"]
-REQUIRED_CLASSES = ['mode-2d', 'mode-3d', 'fmt-v1', 'fmt-v2', 'planted-at-av-range-end', 'planted-first-distance', 'planted-last-distance', 'permuted-table', 'listing-first-row', 'seds-on-different-grids', 'dead-model-in-package']
+REQUIRED_CLASSES = ['mode-2d', 'mode-3d', 'fmt-v1', 'fmt-v2', 'planted-at-av-range-end', 'planted-first-distance', 'planted-last-distance', 'permuted-table', 'listing-first-row', 'seds-on-different-grids', 'dead-model-in-package', 'plot-only-band-with-wrong-value']
 TIMEOUT = {'quick': 600, 'thorough': 3000}
 
 AXES = {'fmt': ['v1', 'v2'], 'n_ap': [3, 1], 'n_models': [4, 2, 6], 'perm': ['rotated', 'identity', 'reversed'], 'sord': ['wav-desc', 'wav-asc'], 'rel': [0.01, 0.1], 'grids': ['same', 'interior'], 'dead': [False, True]}
@@ -124,15 +124,29 @@ def run_case(ctx, case, rec, d):
                 # the data file carries the printed (%11.3e) values: the reference works from what the file says
                 line = s.to_ascii()
                 s2 = Source.from_ascii(line)
-                plants.append({'m': m, 'a0': a0, 'jd': jd, 'sc': planted_sc, 'flux': np.asarray(s2.flux, float), 'err': np.asarray(s2.error, float), 'name': s.name, 'ia': ia, 'idd': idd})
+                plants.append({'m': m, 'a0': a0, 'jd': jd, 'sc': planted_sc, 'flux': np.asarray(s2.flux, float), 'err': np.asarray(s2.error, float), 'name': s.name, 'ia': ia, 'idd': idd, 'flags': [1, 1, 1]})
                 lines.append(line)
+                if idd == 1 and mode == '3d':
+                    # the same plant with one band marked plot-only (flag 9) and carrying a wrong value there: still recovered
+                    s9 = Source()
+                    s9.name = s.name + '_f9'
+                    s9.x, s9.y = 1.0, 2.0
+                    s9.valid = np.array([1, 9, 1])
+                    f9 = fl.copy()
+                    f9[1] *= 25.0
+                    s9.flux = f9
+                    s9.error = er
+                    line9 = s9.to_ascii()
+                    t9 = Source.from_ascii(line9)
+                    plants.append({'m': m, 'a0': a0, 'jd': jd, 'sc': planted_sc, 'flux': np.asarray(t9.flux, float), 'err': np.asarray(t9.error, float), 'name': s9.name, 'ia': ia, 'idd': idd, 'flags': [1, 9, 1]})
+                    lines.append(line9)
     data = os.path.join(d, 'data.txt')
     with open(data, 'w') as fh:
         fh.write('\n'.join(lines) + '\n')
     out = os.path.join(d, 'fits.out')
     law = fc.law_object('power')
     try:
-        fit(data, bands, theta * u.arcsec, pk['md'], out, n_data_min=3, extinction_law=law, av_range=[avlo, avhi], distance_range=np.array([dmin, dmax]) * u.kpc,
+        fit(data, bands, theta * u.arcsec, pk['md'], out, n_data_min=2, extinction_law=law, av_range=[avlo, avhi], distance_range=np.array([dmin, dmax]) * u.kpc,
             output_format=('N', 3), output_convolved=False)
         fin = FitInfoFile(out, 'r')
         recs = list(fin)
@@ -154,7 +168,9 @@ def run_case(ctx, case, rec, d):
     for p, r, blk in zip(plants, recs, blocks):
         sub = {'planted_model': names[p['m']], 'A_V0': p['a0'], 'planted_scale': p['sc']}
         # the reference decides whether the plant is distinguishable, from the printed photometry
-        flags = [1, 1, 1]
+        flags = p['flags']
+        if 9 in flags:
+            rec.cls('plot-only-band-with-wrong-value')
         if mode == '3d':
             ref = fitref.fit3d(flags, p['flux'], p['err'], logm3, k, avlo, avhi)
             best_other = min(float(np.min(ref['chi2_hi'][q])) for q in range(n_models) if q != p['m']) if n_models > 1 else np.inf
@@ -206,7 +222,7 @@ def run_case(ctx, case, rec, d):
         rec.cls('listing-first-row')
         row = blk['rows'][0] if blk['rows'] else None
         want = pk['pardict'][names[p['m']]]
-        if blk['source'] != p['name'] or row is None or row['model'] != names[p['m']] or not all(pc.close_e(a, b) for a, b in zip(row['pars'], want)) or blk['n_data'] != 3:
+        if blk['source'] != p['name'] or row is None or row['model'] != names[p['m']] or not all(pc.close_e(a, b) for a, b in zip(row['pars'], want)) or blk['n_data'] != sum(1 for v in p['flags'] if v in (1, 4)):
             rec.violation('pipeline|listing', sub, {'problem': 'first row of the write_parameters block is not the planted model with its own parameter row', 'row': row, 'expected_model': names[p['m']], 'expected_parameters': want})
     if case.get('_deviations') == 0:
         rec.sample({'config': {kk: v for kk, v in case.items()}, 'first_plant': {kk: (v.tolist() if hasattr(v, 'tolist') else v) for kk, v in plants[1].items()}, 'data_line': lines[1], 'table_order': pk['table_order']})
